@@ -313,8 +313,9 @@ static std::string doStep(Context& ctx, const std::string& src) {
 
 // BEGIN INT
 // The interactive runner as apps/cli_parser.cpp runs it (main loop of `bloc -i`): every statement is parsed on its own and its
-// chain is executed with Statement::execute directly — NOT through Executable::run, so no Context::onRuntimeError() when it
-// fails; the loop only purges the working memory and goes on with the next statement. The statements stay alive until the
+// chain is executed with Statement::execute directly — NOT through Executable::run; the loop's own handler calls
+// Context::onRuntimeError() (repo 3db7ed2; before: only purgeWorkingMemory) and goes on with the next statement. This op is a hand
+// copy of that loop: vlib/props/c07.py checks that the cli's source still has this shape. The statements stay alive until the
 // session ends (the cli keeps them in `statements`): here until the case's contexts are released (intReleaseKept).
 //   istep K <hex>   -> steps=<r1>,<r2>,…  with ri = ok | ret | rerr <code>[ <hexname>] | perr <code> <l>:<c> (parse error: that statement is dropped)
 static std::vector<const Statement*> g_int_keep;
@@ -342,7 +343,7 @@ static std::string doIStep(Context& ctx, const std::string& src) {
       const Statement* x = s;
       while (x) {
         try { x = x->execute(ctx); }
-        catch (RuntimeError& re) { r = rerr(re); ctx.purgeWorkingMemory(); break; }
+        catch (RuntimeError& re) { r = rerr(re); ctx.onRuntimeError(); break; }   /* as the cli does since 3db7ed2 (c07.py checks the cli's source for it) */
       }
       g_int_keep.push_back(s);
       if (ctx.returnCondition()) { ctx.returnCondition(false); Value* v = ctx.dropReturned(); if (v) delete v; r = "ret"; }
